@@ -191,8 +191,10 @@ def handleHist (c : Case) : Verdict :=
   -- a history that uses a dead object / constructs over a live one is not a history of the property: both sides refuse it
   if r.invalid.isSome then { corr := r.out == obsString c, spec := true, why := "not a valid history (ignored)", model := r.out, branch := "hist.invalid" } else
   let out := r.out ++ endToken r.p
+  let obs := obsString c
   let specWhy :=
-    if r.specWhy == "" && !(c.obs.getLast?.getD "" == "end=clean") then "storage leaked or released twice at the end of the history"
+    if obs.startsWith "abort" || obs.startsWith "hang" then s!"the history does not run to its end on the implementation: {obs}"
+    else if r.specWhy == "" && !(c.obs.getLast?.getD "" == "end=clean") then "storage leaked or released twice at the end of the history"
     else r.specWhy
   { corr := out == obsString c, spec := specWhy == "", why := specWhy, model := (out.take 20000).toString,
     branch := s!"hist.w{c.get "w"}.len{ops.length / 8 * 8}", nontrivial := ops.length > 3 }
